@@ -109,6 +109,9 @@ char *fgets(char *s, int size, FILE *fp)
 int verif_printf(void) { return 0; }
 
 /* ---- libjwt as the tools see it ---- */
+struct jwt_builder { int dummy; };
+jwt_builder_t *jwt_builder_new(void) { return nondet_bool() ? NULL : malloc(sizeof(struct jwt_builder)); }
+void jwt_builder_free(jwt_builder_t *b) { free(b); }
 struct jwt_checker { int dummy; };
 struct jwk_set { int dummy; };
 jwt_checker_t *jwt_checker_new(void) { return nondet_bool() ? NULL : malloc(sizeof(struct jwt_checker)); }
